@@ -157,3 +157,182 @@ Proof.
   - xld Hm Hok. reflexivity.
   - reflexivity.
 Qed.
+
+(* ------------------------------------------------------------------ dir_reverse *)
+(* the range reversal of DirDefs.dir_reverse, for any element type *)
+Definition rev_range {A} (l : list A) (b e : nat) : list A :=
+  if (b <? e)%nat then firstn b l ++ rev (firstn (e - b) (skipn b l)) ++ skipn e l else l.
+Lemma dir_reverse_is_rev_range ord b e : dir_reverse ord b e = rev_range ord b e.
+Proof. reflexivity. Qed.
+Lemma map_rev_range {A B} (f : A -> B) l b e : map f (rev_range l b e) = rev_range (map f l) b e.
+Proof.
+  unfold rev_range. destruct (b <? e)%nat; [|reflexivity].
+  rewrite !map_app, map_rev, !skipn_map, !firstn_map. reflexivity.
+Qed.
+Lemma length_rev_range {A} (l : list A) b e : (e <= length l)%nat -> length (rev_range l b e) = length l.
+Proof.
+  intro H. unfold rev_range. destruct (Nat.ltb_spec b e); [|reflexivity].
+  rewrite !app_length, rev_length, !firstn_length, !skipn_length. lia.
+Qed.
+Lemma nth_firstn_lt {A} (l : list A) n i d : (i < n)%nat -> nth i (firstn n l) d = nth i l d.
+Proof.
+  revert n i; induction l as [|a l IH]; intros n i H; [rewrite firstn_nil; reflexivity|].
+  destruct n as [|n]; [lia|]. destruct i as [|i]; [reflexivity|]. cbn [firstn nth]. apply IH. lia.
+Qed.
+Lemma nth_skipn_add {A} (l : list A) n i d : nth i (skipn n l) d = nth (n + i) l d.
+Proof.
+  revert l; induction n as [|n IH]; intro l; [reflexivity|]. destruct l as [|a l]; [destruct i; reflexivity|]. apply IH.
+Qed.
+(* cell by cell: inside [b, e) the mirror image, outside unchanged *)
+Lemma nth_rev_range {A} (l : list A) b e i d : (e <= length l)%nat ->
+  nth i (rev_range l b e) d = if (b <=? i)%nat && (i <? e)%nat then nth (b + e - 1 - i) l d else nth i l d.
+Proof.
+  intro H. unfold rev_range. destruct (Nat.ltb_spec b e) as [Hbe|Hbe].
+  - destruct (Nat.leb_spec b i) as [Hbi|Hbi]; cbn [andb].
+    + rewrite app_nth2 by (rewrite firstn_length; lia). rewrite firstn_length, Nat.min_l by lia.
+      destruct (Nat.ltb_spec i e) as [Hie|Hie].
+      * rewrite app_nth1 by (rewrite rev_length, firstn_length, skipn_length; lia).
+        rewrite rev_nth by (rewrite firstn_length, skipn_length; lia).
+        rewrite firstn_length, skipn_length, Nat.min_l by lia.
+        rewrite nth_firstn_lt by lia. rewrite nth_skipn_add. f_equal. lia.
+      * rewrite app_nth2 by (rewrite rev_length, firstn_length, skipn_length; lia).
+        rewrite rev_length, firstn_length, skipn_length, Nat.min_l by lia.
+        rewrite nth_skipn_add. f_equal. lia.
+    + rewrite app_nth1 by (rewrite firstn_length; lia). apply nth_firstn_lt. lia.
+  - destruct (Nat.leb_spec b i); destruct (Nat.ltb_spec i e); cbn [andb]; try reflexivity. lia.
+Qed.
+
+(* the loop of dir_reverse on lists: swap the two ends and move inwards (e1 is the C variable end after end--) *)
+Fixpoint swaps (k : nat) (l : list Z) (b e1 : nat) : list Z :=
+  match k with
+  | O => l
+  | S k => if (b <? e1)%nat
+           then swaps k (upd (upd l b (nthz l (Z.of_nat e1))) e1 (nthz l (Z.of_nat b))) (S b) (e1 - 1)
+           else l
+  end.
+Lemma length_swaps k : forall l b e1, (e1 < length l)%nat -> length (swaps k l b e1) = length l.
+Proof.
+  induction k as [|k IH]; intros l b e1 H; [reflexivity|]. cbn [swaps].
+  destruct (Nat.ltb_spec b e1); [|reflexivity].
+  rewrite IH; rewrite !upd_length; rewrite ?upd_length; lia.
+Qed.
+Lemma nth_swaps k : forall l b e1 i, (e1 < length l)%nat -> (e1 - b <= 2 * k)%nat ->
+  nth i (swaps k l b e1) 0 = if (b <=? i)%nat && (i <=? e1)%nat then nth (b + e1 - i) l 0 else nth i l 0.
+Proof.
+  induction k as [|k IH]; intros l b e1 i H Hk; cbn [swaps].
+  - destruct (Nat.leb_spec b i); destruct (Nat.leb_spec i e1); cbn [andb]; try reflexivity. f_equal. lia.
+  - destruct (Nat.ltb_spec b e1) as [Hbe|Hbe].
+    + rewrite IH by (rewrite ?upd_length; rewrite ?upd_length; lia).
+      unfold nthz. rewrite !Nat2Z.id.
+      rewrite !nth_upd by (rewrite ?upd_length; lia).
+      destruct (Nat.leb_spec (S b) i); destruct (Nat.leb_spec i (e1 - 1)); destruct (Nat.leb_spec b i);
+        destruct (Nat.leb_spec i e1); cbn [andb]; try lia;
+        repeat match goal with |- context [Nat.eqb ?x ?y] => destruct (Nat.eqb_spec x y) end; try lia; try reflexivity;
+        try (f_equal; lia).
+    + destruct (Nat.leb_spec b i); destruct (Nat.leb_spec i e1); cbn [andb]; try reflexivity. f_equal. lia.
+Qed.
+Lemma swaps_is_rev_range k l b e : (e <= length l)%nat -> (1 <= e)%nat -> (e - 1 - b <= 2 * k)%nat ->
+  swaps k l b (e - 1) = rev_range l b e.
+Proof.
+  intros H H1 Hk. apply (nth_ext _ _ 0 0).
+  - rewrite length_swaps, length_rev_range by lia. reflexivity.
+  - intros i _. rewrite nth_swaps, nth_rev_range by lia.
+    destruct (Nat.leb_spec b i); destruct (Nat.leb_spec i (e - 1)); destruct (Nat.ltb_spec i e); cbn [andb]; try lia; try reflexivity.
+    f_equal. lia.
+Qed.
+Lemma rev_range_small {A} (l : list A) b e : (e <= S b)%nat -> rev_range l b e = l.
+Proof.
+  intros H. unfold rev_range. destruct (Nat.ltb_spec b e); [|reflexivity].
+  assert (e = S b) by lia. subst e. replace (S b - b)%nat with 1%nat by lia.
+  replace (skipn (S b) l) with (skipn 1 (skipn b l)) by (rewrite skipn_skipn; f_equal; lia).
+  rewrite <- (firstn_skipn b l) at 4. f_equal.
+  destruct (skipn b l) as [|x r]; reflexivity.
+Qed.
+
+Definition dr_loop : stmt := match fn_body cf_dir_reverse with SSeq _ w => w | _ => SSkip end.
+
+Ltac xst Hm :=
+  match goal with
+  | |- context [store ?m ?b (0 + 1 * ?z) (VInt ?v)] =>
+      replace (0 + 1 * z) with z by lia; rewrite (store_int_arr m b _ z v Hm) by (rewrite ?upd_length; rewrite ?upd_length; lia); xstep
+  end.
+
+Lemma dr_loop_ok call g : forall k l b e1 fuel m tmp, int_arr_at m g l -> ints_ok l ->
+  (b < e1 -> e1 < length l)%nat -> Z.of_nat b <= 2147483647 -> Z.of_nat e1 <= 2147483647 ->
+  (e1 - b <= 2 * k)%nat -> (k < fuel)%nat ->
+  exists loc', exec call fuel dr_loop (mkst [VPtr g 0; VInt (Z.of_nat b); VInt (Z.of_nat e1); tmp] m)
+               = ONormal (mkst loc' (upd m g (map VInt (swaps k l b e1)))).
+Proof.
+  induction k as [|k IH]; intros l b e1 fuel m tmp Hm Hok Hin Hb He Hk Hf; (destruct fuel as [|fuel]; [lia|]);
+    unfold dr_loop; cbn [fn_body cf_dir_reverse]; rewrite exec_while; xstep; cbn [swaps].
+  - destruct (Z.ltb_spec (Z.of_nat b) (Z.of_nat e1)); [lia|]. xstep.
+    rewrite (int_arr_upd_self m g l Hm). eexists; reflexivity.
+  - destruct (Nat.ltb_spec b e1) as [Hbe|Hbe]; (destruct (Z.ltb_spec (Z.of_nat b) (Z.of_nat e1)); try lia); xstep.
+    + specialize (Hin Hbe).
+      xld Hm Hok. xld Hm Hok.
+      xst Hm. rewrite ?(wrap_I32_id _ (nthz_ok l (Z.of_nat e1) Hok)), ?(wrap_I32_id _ (nthz_ok l (Z.of_nat b) Hok)).
+      set (l1 := upd l (Z.to_nat (Z.of_nat b)) (nthz l (Z.of_nat e1))) in *.
+      assert (Hm1 : int_arr_at (upd m g (map VInt l1)) g l1) by (apply (int_arr_at_upd m g l l1 Hm)).
+      assert (Hl1 : length l1 = length l) by (unfold l1; apply upd_length; lia).
+      xst Hm1. rewrite (int_arr_upd_upd m g l _ _ Hm).
+      set (l2 := upd l1 (Z.to_nat (Z.of_nat e1)) (nthz l (Z.of_nat b))) in *.
+      assert (Hm2 : int_arr_at (upd m g (map VInt l2)) g l2) by (apply (int_arr_at_upd m g l l2 Hm)).
+      assert (Hl2 : length l2 = length l) by (unfold l2; rewrite upd_length; lia).
+      rewrite !chk_I32 by lia. xstep. rewrite chk_I32 by lia. xstep.
+      replace (Z.of_nat b + 1) with (Z.of_nat (S b)) by lia.
+      replace (Z.of_nat e1 + -1) with (Z.of_nat (e1 - 1)) by lia.
+      destruct (IH l2 (S b) (e1 - 1)%nat fuel (upd m g (map VInt l2)) (VInt (nthz l (Z.of_nat b))) Hm2) as [loc' X].
+      * unfold l2, l1. apply ints_ok_upd; [apply ints_ok_upd; [exact Hok|]|]; apply nthz_ok; exact Hok.
+      * lia.
+      * lia.
+      * lia.
+      * lia.
+      * lia.
+      * exists loc'. unfold dr_loop in X; cbn [fn_body cf_dir_reverse] in X. rewrite X.
+        rewrite (int_arr_upd_upd m g l _ _ Hm). unfold l2, l1. rewrite !Nat2Z.id. reflexivity.
+    + rewrite (int_arr_upd_self m g l Hm). eexists; reflexivity.
+Qed.
+
+Lemma swaps_none k l b e1 : (e1 <= b)%nat -> swaps k l b e1 = l.
+Proof. intro H. destruct k; cbn [swaps]; [reflexivity|]. destruct (Nat.ltb_spec b e1); [lia|reflexivity]. Qed.
+
+(* the array as a list of ints.  The precondition is what the C text needs: beg and end are ints, and when at
+   least one swap happens (beg < end - 1) the range ends inside the array; 0 <= beg holds because beg : nat *)
+Theorem tr_dir_reverse_z m g l b e d fuel : int_arr_at m g l -> ints_ok l ->
+  Z.of_nat b <= 2147483647 -> Z.of_nat e <= 2147483647 -> (S b < e -> e <= length l)%nat -> (e - b < fuel)%nat ->
+  callf cprog fuel (S d) F_dir_reverse [VPtr g 0; VInt (Z.of_nat b); VInt (Z.of_nat e)] m
+  = Ok (VUndef, upd m g (map VInt (rev_range l b e))).
+Proof.
+  intros Hm Hok Hb He Hin Hf. enter F_dir_reverse cf_dir_reverse. xstep.
+  rewrite chk_I32 by lia. xstep.
+  destruct e as [|e].
+  - change (Z.of_nat 0 + -1) with (-1). destruct fuel as [|fuel]; [lia|]. rewrite exec_while. xstep.
+    destruct (Z.ltb_spec (Z.of_nat b) (-1)); [lia|]. xstep.
+    rewrite rev_range_small by lia. rewrite (int_arr_upd_self m g l Hm). reflexivity.
+  - replace (Z.of_nat (S e) + -1) with (Z.of_nat e) by lia.
+    destruct (dr_loop_ok (callf cprog fuel d) g (S e - b) l b e fuel m VUndef Hm Hok ltac:(lia) Hb ltac:(lia) ltac:(lia) ltac:(lia))
+      as [loc' X].
+    unfold dr_loop in X; cbn [fn_body cf_dir_reverse] in X. rewrite X. cbn [memm]. do 4 f_equal.
+    destruct (Nat.lt_ge_cases b e) as [L|L].
+    + rewrite <- (swaps_is_rev_range (S e - b) l b (S e)) by lia. f_equal. lia.
+    + rewrite swaps_none by lia. rewrite rev_range_small by lia. reflexivity.
+Qed.
+
+(* the order array of dir.c: entries are character indices *)
+Theorem tr_dir_reverse m g ord b e d fuel : int_arr_at m g (map Z.of_nat ord) -> ints_ok (map Z.of_nat ord) ->
+  Z.of_nat b <= 2147483647 -> Z.of_nat e <= 2147483647 -> (S b < e -> e <= length ord)%nat -> (e - b < fuel)%nat ->
+  callf cprog fuel (S d) F_dir_reverse [VPtr g 0; VInt (Z.of_nat b); VInt (Z.of_nat e)] m
+  = Ok (VUndef, upd m g (map VInt (map Z.of_nat (dir_reverse ord b e)))).
+Proof.
+  intros Hm Hok Hb He Hin Hf. rewrite dir_reverse_is_rev_range, map_rev_range.
+  apply tr_dir_reverse_z; try assumption. rewrite map_length. exact Hin.
+Qed.
+
+(* what the reversal does cell by cell: mirror image inside [b, e), nothing outside; same length *)
+Lemma dir_reverse_cells ord b e i d : (e <= length ord)%nat ->
+  length (dir_reverse ord b e) = length ord /\
+  nth i (dir_reverse ord b e) d = if (b <=? i)%nat && (i <? e)%nat then nth (b + e - 1 - i) ord d else nth i ord d.
+Proof. intro H. rewrite dir_reverse_is_rev_range. split; [apply length_rev_range; exact H|apply nth_rev_range; exact H]. Qed.
+
+(* outside the precondition the C function does leave the array: one witness is enough to show the
+   precondition is not idle -- see the Example in Properties_C18.v *)
